@@ -305,9 +305,11 @@ class Indicator(ABC):
 
     def purge(self):
         """Remove this indicator value from all Candles"""
-        for indicator in [self, *self.sub_indicators.values(), *self.managed_indicators.values()]:
-            for candle in self.candles:
-                indicator._readings(candle).pop(indicator.name, None)
+        for candle in self.candles:
+            self._readings(candle).pop(self.name, None)
+
+        for indicator in [*self.sub_indicators.values(), *self.managed_indicators.values()]:
+            indicator.purge()
 
     def recalculate(self):
         """Re-calculate this indicator value for all Candles"""
